@@ -11,16 +11,14 @@
   their doc children, attributes, source positions, version / deprecated / stability / introspectable
   attributes; and the members of a record / union: `_write_field`, `_parse_fields`, `_parse_field`, the
   array-length loop of `_parse_compound`):
-    * C07_vocab_partial        every attribute / child / text the writer can emit on an element is read by the
-                               reader for that element, up to the listed, justified exceptions and ONE defect;
-    * C07_type_roundtrip_partial, C07_param_roundtrip_partial, C07_callable_roundtrip_partial
-                               parse (write m) = canon m, and = m when m is canonical;
-    * C07_fixpoint_partial     write (parse (write m)) = write m;
-    * C07_members_roundtrip_partial   parse (write ms) = canon ms for the member list of a compound without an
-                               anonymous struct / union member (C07_members_misindexed_counterexample: with one, the
-                               reader aborts or loses an array length — a finding);
-    * C07_members_roundtrip_aligned   the same for EVERY member list once elements and fields are paired one to one
-                               (the repair).
+    * C07_vocab                every attribute / child / text the writer can emit on an element is read by the
+                               reader for that element, up to the listed, justified exceptions;
+    * C07_type_roundtrip, C07_param_roundtrip, C07_callable_roundtrip
+                               parse (write m) = canon m, and = m when m is canonical (`_exact`);
+    * C07_fixpoint             write (parse (write m)) = write m;
+    * C07_members_roundtrip    parse (write ms) = canon ms for the member list of a record / union: typed fields,
+                               fields holding a callback, anonymous struct / union members, array lengths resolved
+                               back to FIELD names.
   Whole-file byte identity for every node kind is VALIDATED on the real code by harness/c07.py, not proved.
 
   Hypotheses beyond the property's wording (all decidable, evaluated by the harness through the
@@ -28,10 +26,10 @@
     * `wfTy`: a type reference names a fundamental type of `ast.type_names` or a GI name that is not
       itself spelled like a fundamental / GLib.List / GLib.SList / GLib.HashTable; array types are one
       of the four known kinds; a GLib.List's element is not varargs (the reader spells that child name
-      `'    varargs'`); `target_foreign` is unset (no scanner code path sets it; the reader ignores the
-      attribute) — and the key / value types of a GLib.HashTable are not arrays.  The last one is NOT a
-      scanner invariant: `(element-type utf8 GStrv)` produces it and the real reader loses the array
-      (C07_type_map_array_counterexample; reported as a finding, hence the `_partial` names).
+      `'    varargs'`; no scanner code path builds such a list: C07_type_list_varargs_counterexample);
+      `target_foreign` is unset (no scanner code path sets it; the reader ignores the attribute:
+      C07_type_foreign_counterexample).  These are representation invariants of `ast.Type`, checked by the harness
+      on every callable and member list of every scanned namespace; none of them excludes a scanner-producible input.
     * `wfDocs`: attribute names are distinct (an OrderedDict), only `ast.Node`s have source positions.
     * `wfParam`: `direction` is not the empty string.
     * `wfCallable`: the instance parameter carries no closure / destroy / array length (the reader resolves
@@ -74,11 +72,6 @@ def vocabExceptions : List (String × String × String) := [
   -- `Type.target_foreign` is never set by any scanner code path; see C07_type_foreign_counterexample
   ("attr", "type", "foreign")]
 
-/-- Written, not read, and NOT justified: defects of the unchanged tree (reported as findings). -/
-def vocabDefects : List (String × String × String) := [
-  -- `_write_boxed` writes the static functions of a bare boxed type, `_parse_boxed` never reads them
-  ("child", "glib:boxed", "function")]
-
 def tableGet (tbl : List (String × List String)) (e : String) : List String := (tbl.lookup e).getD []
 
 def excused (ex : List (String × String × String)) (kind e n : String) : Bool :=
@@ -99,21 +92,13 @@ def vocabOK (ex : List (String × String × String)) : Bool :=
   && wText.all (fun e => rText.contains e)
   && ex.all (fun x => entryLive "attr" wAttrs rAttrs x && entryLive "child" wChildren rChildren x)
 
-/-- The property's vocabulary clause at full strength: only the justified exceptions. -/
-def C07_vocab_full : Prop := vocabOK vocabExceptions = true
+/-- W ⊆ R for every element, attribute, child and text, up to the justified exceptions; every listed
+    exception is live (really written and really not read). -/
+theorem C07_vocab : vocabOK vocabExceptions = true := by decide
 
-/-- W ⊆ R for every element, attribute, child and text, up to the justified exceptions and the one
-    known defect; every listed entry is live (really written and really not read). -/
-theorem C07_vocab_partial : vocabOK (vocabExceptions ++ vocabDefects) = true := by decide
-
-/-- The defect is real at the vocabulary level: the writer can put `<function>` into `<glib:boxed>`,
-    the reader never looks for it — so the full statement fails. -/
-theorem C07_vocab_boxed_function_counterexample :
-    (tableGet wChildren "glib:boxed").contains "function" = true ∧
-    (tableGet rChildren "glib:boxed").contains "function" = false ∧ ¬ C07_vocab_full := by
-  refine ⟨by decide, by decide, ?_⟩
-  unfold C07_vocab_full
-  decide
+-- `<glib:boxed>`: the static functions `_write_boxed` writes are read by `_parse_boxed` (fixed by 8ec1ba5)
+example : (tableGet wChildren "glib:boxed").contains "function" = true ∧
+    (tableGet rChildren "glib:boxed").contains "function" = true := by decide
 
 /-! ### types -/
 
@@ -124,14 +109,9 @@ def readType (ns : Str) (siblings : List (Option Str)) (kids : List Xml) : Excep
   | .error e => .error e
   | .ok t => parseTypeArrayLength siblings kids t
 
-/-- the full statement: every type the writer accepts is read back (up to `canonTy`) -/
-def C07_type_roundtrip_full : Prop :=
-  ∀ (ns : Str) (names : List (Option Str)) (t : Ty) (x : Xml),
-    writeType ns (some names) t = .ok x → readType ns names [x] = .ok (canonTy t)
-
 /-- ∀ t, WFTy t → parseType (writeType t) = canon t: next to any doc children, with the length index
     resolved back to the parameter (field) name, at every nesting depth. -/
-theorem C07_type_roundtrip_partial (ns : Str) (names : List (Option Str)) (t : Ty) (x : Xml) (dk : List Xml)
+theorem C07_type_roundtrip (ns : Str) (names : List (Option Str)) (t : Ty) (x : Xml) (dk : List Xml)
     (hwf : wfTy ns t = true) (hw : writeType ns (some names) t = .ok x) (hdk : DocKids dk) :
     readType ns names (dk ++ [x]) = .ok (canonTy t) := by
   obtain ⟨h1, h2⟩ := parse_top_type ns names t x dk hwf hw hdk.noTypeTags (hdk.ne _ (by decide))
@@ -142,7 +122,7 @@ theorem C07_type_roundtrip_partial (ns : Str) (names : List (Option Str)) (t : T
 theorem C07_type_roundtrip_exact (ns : Str) (names : List (Option Str)) (t : Ty) (x : Xml)
     (hwf : wfTy ns t = true) (hc : canonTy t = t) (hw : writeType ns (some names) t = .ok x) :
     readType ns names [x] = .ok t := by
-  have := C07_type_roundtrip_partial ns names t x [] hwf hw (fun _ h => by cases h)
+  have := C07_type_roundtrip ns names t x [] hwf hw (fun _ h => by cases h)
   rwa [hc] at this
 
 /-- the inner level alone (`_parse_type_simple`), for any parent: everything but the length index -/
@@ -169,29 +149,12 @@ def isOkEq (r : Except Err Ty) (t : Ty) : Bool :=
   | .ok t' => t' == t
   | .error _ => false
 
-/-- DEFECT (in scope: `(element-type utf8 GStrv)` on a GHashTable): the writer nests an `<array>` in
-    the GLib.HashTable type, the reader only collects `<type>` children — the value type comes back
-    as gpointer.  Model and real code agree on this (harness corpus `finding-map-array.json`). -/
-theorem C07_type_map_array_counterexample :
-    wfTy nsFoo tyMapArr = false ∧
+-- `(element-type utf8 GStrv)` on a GHashTable: the `<array>` nested in the GLib.HashTable type is read back
+-- (fixed by 4965d4a; harness corpus `finding-map-array.json` is the regression on the real code)
+example : wfTy nsFoo tyMapArr = true ∧
     (match writeType nsFoo (some []) tyMapArr with
-     | .ok x => isOkEq (readType nsFoo [] [x]) (.map (some "GHashTable*".toList) none tyUtf8 tyAny)
+     | .ok x => isOkEq (readType nsFoo [] [x]) (canonTy tyMapArr)
      | .error _ => false) = true := by decide
-
-theorem C07_type_roundtrip_full_false : ¬ C07_type_roundtrip_full := by
-  intro h
-  have hok : (match writeType nsFoo (some []) tyMapArr with | .ok _ => true | .error _ => false) = true := by
-    decide
-  have hw : ∃ x, writeType nsFoo (some []) tyMapArr = .ok x := by
-    cases hx : writeType nsFoo (some []) tyMapArr with
-    | ok x => exact ⟨x, rfl⟩
-    | error e => rw [hx] at hok; cases hok
-  obtain ⟨x, hx⟩ := hw
-  have h1 := h nsFoo [] tyMapArr x hx
-  have h2 := C07_type_map_array_counterexample.2
-  rw [hx] at h2
-  simp only [isOkEq, h1] at h2
-  revert h2; decide
 
 /-- not producible by the scanner (no code sets `target_foreign`), but shows why `wfTy` excludes it:
     `foreign="1"` is written and never read -/
@@ -210,7 +173,7 @@ theorem C07_type_list_varargs_counterexample :
 
 /-- `parse (write p) = canon p` for a parameter inside its callable: `_parse_parameter`, then the
     index pass of `_parse_function_common` with the same parameter names. -/
-theorem C07_param_roundtrip_partial (ns : Str) (names : List (Option Str)) (p : Param) (x : Xml)
+theorem C07_param_roundtrip (ns : Str) (names : List (Option Str)) (p : Param) (x : Xml)
     (hwf : wfParam ns p = true) (hw : writeParam ns names "parameter" p = .ok x) :
     parseParam ns x = .ok (canonParam0 p) ∧ resolveParam names (x, canonParam0 p) = .ok (canonParam p) :=
   (parse_write_param ns names "parameter" p x hw hwf).2
@@ -219,7 +182,7 @@ theorem C07_param_roundtrip_partial (ns : Str) (names : List (Option Str)) (p : 
 theorem C07_param_roundtrip_exact (ns : Str) (names : List (Option Str)) (p : Param) (x : Xml)
     (hwf : wfParam ns p = true) (hc : canonParam p = p) (hw : writeParam ns names "parameter" p = .ok x) :
     ∃ p0, parseParam ns x = .ok p0 ∧ resolveParam names (x, p0) = .ok p := by
-  have := C07_param_roundtrip_partial ns names p x hwf hw
+  have := C07_param_roundtrip ns names p x hwf hw
   rw [hc] at this
   exact ⟨_, this.1, this.2⟩
 
@@ -254,14 +217,10 @@ theorem C07_canon_param_same_output (ns : Str) (names : List (Option Str)) (node
 
 /-! ### callables -/
 
-def C07_callable_roundtrip_full : Prop :=
-  ∀ (ns : Str) (c : Callable) (x : Xml), klassFields c = true →
-    writeCallable ns c = .ok x → parseCallable ns c.klass x = .ok (canonCallable c)
-
 /-- `parse (write c) = canon c` for everything written through `_write_callable`: attributes, doc
     children, source position, return value, instance parameter, parameters with closure / destroy /
     array-length indices resolved back to names. -/
-theorem C07_callable_roundtrip_partial (ns : Str) (c : Callable) (x : Xml)
+theorem C07_callable_roundtrip (ns : Str) (c : Callable) (x : Xml)
     (hwf : wfCallable ns c = true) (hw : writeCallable ns c = .ok x) :
     parseCallable ns c.klass x = .ok (canonCallable c) :=
   parse_write_callable ns c x hw hwf
@@ -269,7 +228,7 @@ theorem C07_callable_roundtrip_partial (ns : Str) (c : Callable) (x : Xml)
 theorem C07_callable_roundtrip_exact (ns : Str) (c : Callable) (x : Xml)
     (hwf : wfCallable ns c = true) (hc : canonCallable c = c) (hw : writeCallable ns c = .ok x) :
     parseCallable ns c.klass x = .ok c := by
-  have := C07_callable_roundtrip_partial ns c x hwf hw
+  have := C07_callable_roundtrip ns c x hwf hw
   rwa [hc] at this
 
 theorem C07_canon_callable_same_output (ns : Str) (c : Callable) :
@@ -277,16 +236,12 @@ theorem C07_canon_callable_same_output (ns : Str) (c : Callable) :
 
 /-! ### the write fixed point -/
 
-def C07_fixpoint_full : Prop :=
-  ∀ (ns : Str) (c : Callable) (x : Xml), klassFields c = true → writeCallable ns c = .ok x →
-    ∃ c', parseCallable ns c.klass x = .ok c' ∧ writeCallable ns c' = .ok x
-
 /-- write (parse (write c)) = write c: what the writer produced is read, and writing what was read
     produces the same tree again (and therefore so does every further cycle: w1 = w2 = w3 = …). -/
-theorem C07_fixpoint_partial (ns : Str) (c : Callable) (x : Xml)
+theorem C07_fixpoint (ns : Str) (c : Callable) (x : Xml)
     (hwf : wfCallable ns c = true) (hw : writeCallable ns c = .ok x) :
     ∃ c', parseCallable ns c.klass x = .ok c' ∧ writeCallable ns c' = .ok x :=
-  ⟨canonCallable c, C07_callable_roundtrip_partial ns c x hwf hw, by rw [write_canonCallable]; exact hw⟩
+  ⟨canonCallable c, C07_callable_roundtrip ns c x hwf hw, by rw [write_canonCallable]; exact hw⟩
 
 /-! ### non-vacuity -/
 
@@ -376,44 +331,30 @@ example : DocKids [Xml.elem "doc" [] [] none, Xml.elem "attribute" [] [] none] :
 
 /-! ### members of a record / union (`_write_field`, `_parse_fields`, `_parse_field`, the length loop of `_parse_compound`) -/
 
-/-- the full statement: the member elements of a compound read back as the members written -/
-def C07_members_roundtrip_full : Prop :=
-  ∀ (ns : Str) (ms : List Member) (xs : List Xml), ms.all (wfMember ns) = true →
-    writeMembers ns ms = .ok xs → parseMembers ns xs = .ok (ms.map canonMember)
-
 /-- `parse (write ms) = canon ms` for the members of a record / union — typed fields with every attribute,
-    doc children and the `length` index resolved back to the FIELD name, fields holding a callback — between
-    any other children (`pre`: the compound's own doc children, `post`: its methods and functions),
-    PROVIDED no member is an anonymous struct / union (`isFieldElem`): see the counterexample below. -/
-theorem C07_members_roundtrip_partial (ns : Str) (ms : List Member) (xs pre post : List Xml)
-    (hwf : ms.all (wfMember ns) = true) (hfe : ms.all isFieldElem = true)
-    (hw : writeMembers ns ms = .ok xs) (hpre : NoMemberTags pre) (hpost : NoMemberTags post) :
+    doc children and the `length` index resolved back to the FIELD name, fields holding a callback, anonymous
+    struct / union members — between any other children (`pre`: the compound's own doc children, `post`: its
+    methods and functions). -/
+theorem C07_members_roundtrip (ns : Str) (ms : List Member) (xs pre post : List Xml)
+    (hwf : ms.all (wfMember ns) = true) (hw : writeMembers ns ms = .ok xs)
+    (hpre : NoMemberTags pre) (hpost : NoMemberTags post) :
     parseMembers ns (pre ++ xs ++ post) = .ok (ms.map canonMember) := by
   have hF := mapMExcept_forall2 _ _ _ hw
   have hall : ∀ m ∈ ms, wfMember ns m = true := by rw [List.all_eq_true] at hwf; exact hwf
-  have hfld : ∀ m ∈ ms, isFieldElem m = true := by rw [List.all_eq_true] at hfe; exact hfe
   have hxm : ∀ x ∈ xs, memberTags.contains x.tag = true :=
     forall2_right _ _ _ _ hF (fun a y ha hr => (parse_write_member ns _ a y hr (hall a ha)).1)
-  have hxf : ∀ x ∈ xs, x.tag = "field" :=
-    forall2_right _ _ _ _ hF (fun a y ha hr => by
-      rw [(parse_write_member ns _ a y hr (hall a ha)).2.1]; exact hfld a ha)
-  have hnf : ∀ (l : List Xml), NoMemberTags l → ∀ x ∈ l, decide (x.tag = "field") = false := by
-    intro l hl x hx
-    have := hl x hx
-    simp only [memberTags, List.contains_cons, List.contains_nil, Bool.or_false, Bool.or_eq_false_iff,
-      beq_eq_false_iff_ne, ne_eq] at this
-    simpa using this.1
-  have h1 : (pre ++ xs ++ post).filter (fun x => memberTags.contains x.tag) = xs :=
-    filter_append3 _ pre xs post hpre hxm hpost
-  have h2 : findAllTag "field" (pre ++ xs ++ post) = xs :=
-    filter_append3 _ pre xs post (hnf pre hpre) (fun x hx => by simp [hxf x hx]) (hnf post hpost)
+  have h1 : memberNodes (pre ++ xs ++ post) = xs := filter_append3 _ pre xs post hpre hxm hpost
   have hp0 : mapMExcept (parseMember ns) xs = .ok (ms.map canonMember0) :=
     mapMExcept_of_forall2 _ _ _ _ _ hF (fun a y ha hr => (parse_write_member ns _ a y hr (hall a ha)).2.2.1)
   unfold parseMembers
-  rw [h1, hp0, h2]
+  rw [h1, hp0]
   simp only [memberNames_canon0]
-  exact lengthPass_forall2 _ _ _ _ _ _ hF
-    (fun a y ha hr => (parse_write_member ns _ a y hr (hall a ha)).2.2.2 (hfld a ha))
+  exact lengthPass_written ns _ ms xs hF hall
+
+/-- … and written again they give the same elements (the member-level write fixed point) -/
+theorem C07_members_canon_same_output (ns : Str) (ms : List Member) :
+    writeMembers ns (ms.map canonMember) = writeMembers ns ms :=
+  write_canonMembers ns ms
 
 def fieldOf (n : String) (t : Ty) : Member :=
   { name := some n.toList, body := .typed t, readable := true, writable := true, bits := none, isPrivate := false,
@@ -433,112 +374,26 @@ def membersCycle (parse : Str → List Xml → Except Err (List Member)) (ms : L
   | .ok xs => parse nsFoo xs
   | .error e => .error e
 
-def isErr (e : Err) : Except Err (List Member) → Bool
-  | .error e' => e' == e
-  | .ok _ => false
-
 def isOkMembers (r : Except Err (List Member)) (ms : List Member) : Bool :=
   match r with
   | .ok ms' => ms' == ms
   | .error _ => false
 
-/-- DEFECT (in scope: `struct { union {…} u; guint8 *data; guint len; }` with `@data: (array length=len)`):
-    the reader pairs the i-th `<field>` ELEMENT with `compound.fields[i]`, which also counts the anonymous
-    member.  Either `field.type` is `None` there and the reader aborts (AttributeError), or — one more plain
-    field after the anonymous member — the length lands on a non-array type and is silently lost.
-    Model and real code agree on both (harness corpus `finding-compound-array-length.json`). -/
-theorem C07_members_misindexed_counterexample :
-    [mAnonU, mData, mLen].all (wfMember nsFoo) = true ∧
-    isErr .attributeError (membersCycle parseMembers [mAnonU, mData, mLen]) = true ∧
-    [mAnonU, mPlain, mData, mLen].all (wfMember nsFoo) = true ∧
+-- `struct { union {…} u; guint8 *data; guint len; }` with `@data: (array length=len)`, and the same with one more
+-- plain field after the anonymous member: both were misread before 26f8b24 (AttributeError / length silently lost;
+-- harness corpus `finding-compound-array-length.json` is the regression on the real code)
+example : [mAnonU, mData, mLen].all (wfMember nsFoo) = true ∧
+    isOkMembers (membersCycle parseMembers [mAnonU, mData, mLen]) ([mAnonU, mData, mLen].map canonMember) = true ∧
     isOkMembers (membersCycle parseMembers [mAnonU, mPlain, mData, mLen])
-      [canonMember mAnonU, canonMember mPlain, memberDropLen (canonMember mData), canonMember mLen] = true ∧
+      ([mAnonU, mPlain, mData, mLen].map canonMember) = true ∧
     memberDropLen (canonMember mData) ≠ canonMember mData := by decide
 
-theorem C07_members_roundtrip_full_false : ¬ C07_members_roundtrip_full := by
-  intro h
-  have hw : ∃ xs, writeMembers nsFoo [mAnonU, mData, mLen] = .ok xs := by
-    cases hx : writeMembers nsFoo [mAnonU, mData, mLen] with
-    | ok xs => exact ⟨xs, rfl⟩
-    | error e =>
-      have : (match writeMembers nsFoo [mAnonU, mData, mLen] with | .ok _ => true | .error _ => false) = true := by
-        decide
-      rw [hx] at this; cases this
-  obtain ⟨xs, hx⟩ := hw
-  have h1 := h nsFoo _ xs C07_members_misindexed_counterexample.1 hx
-  have h2 := C07_members_misindexed_counterexample.2.1
-  simp only [membersCycle, hx, h1, isErr] at h2
-  cases h2
-
-/-- The pairing a repair has to use: every member ELEMENT (`<field>`, `<record>`, `<union>`, `<callback>`)
-    with the `compound.fields` entry `_parse_fields` made from it; only `<field>` elements carry a type. -/
-def lengthPassAligned (names : List (Option Str)) : List Xml → List Member → Except Err (List Member)
-  | [], ms => .ok ms
-  | _ :: _, [] => .ok []
-  | n :: ns, m :: ms =>
-    match (if n.tag = "field" then lengthUpd names n m else .ok m) with
-    | .error e => .error e
-    | .ok m' => match lengthPassAligned names ns ms with
-      | .error e => .error e
-      | .ok rest => .ok (m' :: rest)
-
-def parseMembersAligned (ns : Str) (kids : List Xml) : Except Err (List Member) :=
-  match mapMExcept (parseMember ns) (kids.filter (fun x => memberTags.contains x.tag)) with
-  | .error e => .error e
-  | .ok ms => lengthPassAligned (memberNames ms) (kids.filter (fun x => memberTags.contains x.tag)) ms
-
-/-- … and with that pairing the full statement holds for EVERY well-formed member list, anonymous
-    struct / union members included (what the model's `lengthPass` becomes once /repo pairs elements and
-    fields this way). -/
-theorem C07_members_roundtrip_aligned (ns : Str) (ms : List Member) (xs pre post : List Xml)
-    (hwf : ms.all (wfMember ns) = true) (hw : writeMembers ns ms = .ok xs)
-    (hpre : NoMemberTags pre) (hpost : NoMemberTags post) :
-    parseMembersAligned ns (pre ++ xs ++ post) = .ok (ms.map canonMember) := by
-  have hF := mapMExcept_forall2 _ _ _ hw
-  have hall : ∀ m ∈ ms, wfMember ns m = true := by rw [List.all_eq_true] at hwf; exact hwf
-  have hxm : ∀ x ∈ xs, memberTags.contains x.tag = true :=
-    forall2_right _ _ _ _ hF (fun a y ha hr => (parse_write_member ns _ a y hr (hall a ha)).1)
-  have h1 : (pre ++ xs ++ post).filter (fun x => memberTags.contains x.tag) = xs :=
-    filter_append3 _ pre xs post hpre hxm hpost
-  have hp0 : mapMExcept (parseMember ns) xs = .ok (ms.map canonMember0) :=
-    mapMExcept_of_forall2 _ _ _ _ _ hF (fun a y ha hr => (parse_write_member ns _ a y hr (hall a ha)).2.2.1)
-  unfold parseMembersAligned
-  rw [h1, hp0]
-  simp only [memberNames_canon0]
-  have key : ∀ (l : List Member) (ys : List Xml),
-      Forall2 (fun m x => writeMember ns (memberNames ms) m = .ok x) l ys → (∀ m ∈ l, wfMember ns m = true) →
-      lengthPassAligned (memberNames ms) ys (l.map canonMember0) = .ok (l.map canonMember) := by
-    intro l ys hf
-    induction hf with
-    | nil => intro _; rfl
-    | @cons a x as ys' hr _ ih =>
-      intro hl
-      obtain ⟨_, htag, _, hlen⟩ := parse_write_member ns _ a x hr (hl a (by simp))
-      have hstep : (if x.tag = "field" then lengthUpd (memberNames ms) x (canonMember0 a) else .ok (canonMember0 a))
-          = .ok (canonMember a) := by
-        by_cases hf' : isFieldElem a = true
-        · rw [if_pos (by rw [htag]; exact hf'), hlen hf']
-        · rw [if_neg (by rw [htag]; exact hf')]
-          rcases a with ⟨name, body, _, _, _, _, _, _, _, _, _, _⟩
-          cases body with
-          | anon tag => rfl
-          | callback cb => exact absurd rfl hf'
-          | typed t => exact absurd rfl hf'
-      simp only [List.map_cons, lengthPassAligned, hstep]
-      rw [ih (fun m hm => hl m (by simp [hm]))]
-  exact key ms xs hF hall
-
--- the two witnesses of the defect are read back correctly by the aligned pairing
-example : isOkMembers (membersCycle parseMembersAligned [mAnonU, mData, mLen])
-      ([mAnonU, mData, mLen].map canonMember) = true ∧
-    isOkMembers (membersCycle parseMembersAligned [mAnonU, mPlain, mData, mLen])
-      ([mAnonU, mPlain, mData, mLen].map canonMember) = true := by decide
--- non-vacuity of the partial theorem: a field list with a length index and a member holding a callback
+-- non-vacuity: a field list with a length index, a member holding a callback and an anonymous union
 def exCb : Callable :=
   { exCallable with klass := .callback, tag := "callback", instanceParam := none, symbol := none, shadows := none,
                     getProperty := none }
 def mCb : Member := { fieldOf "cb" .unknown with body := .callback exCb, version := some "1.2".toList }
-example : [mData, mLen, mCb].all (wfMember nsFoo) = true ∧ [mData, mLen, mCb].all isFieldElem = true ∧
-    isOk (writeMembers nsFoo [mData, mLen, mCb]) = true := by decide
+example : [mData, mAnonU, mLen, mCb].all (wfMember nsFoo) = true ∧
+    isOk (writeMembers nsFoo [mData, mAnonU, mLen, mCb]) = true := by decide
 
 end GIVerif.GirCodec
